@@ -92,7 +92,8 @@ fn build(fmt: &str, g: &Grid, variant: u8) -> Vec<u8> {
 }
 
 #[derive(Clone, Copy, Debug, PartialEq)]
-enum Opt { First, Row(u32) }
+enum Opt { First, Row(u32), /// read again without touching the option: the last option set stays in force
+    Keep }
 
 fn n_class(g: &Grid, n: u32) -> &'static str {
     match bbox(g) {
@@ -106,7 +107,7 @@ fn n_class(g: &Grid, n: u32) -> &'static str {
 /// the statement, as a check of one read under `opt`
 fn check_read(r: &Range<Data>, g: &Grid, opt: Opt) -> Result<(), (String, String)> {
     match opt {
-        Opt::First => crate::model::sheet::check_range(r, g),
+        Opt::First | Opt::Keep => crate::model::sheet::check_range(r, g),
         Opt::Row(n) => {
             let has = g.keys().any(|k| k.0 >= n);
             if !has {
@@ -132,7 +133,7 @@ fn run_history<R: Reader<Cursor<Vec<u8>>>>(bytes: &[u8], hist: &[Opt]) -> Result
     let mut wb = R::new(Cursor::new(bytes.to_vec())).map_err(|e| format!("open: {e:?}"))?;
     let mut out = vec![];
     for o in hist {
-        match o { Opt::First => wb.with_header_row(HeaderRow::FirstNonEmptyRow), Opt::Row(n) => wb.with_header_row(HeaderRow::Row(*n)) };
+        match o { Opt::First => { wb.with_header_row(HeaderRow::FirstNonEmptyRow); } Opt::Row(n) => { wb.with_header_row(HeaderRow::Row(*n)); } Opt::Keep => {} }
         out.push(wb.worksheet_range("S").map_err(|e| format!("worksheet_range under {o:?}: {e:?}"))?);
     }
     Ok(out)
@@ -166,6 +167,8 @@ fn corpus_header_rows(rep: &Report) {
                         Err(err) => bad.push((format!("error/{}", n_class(&g, n)), format!("sheet {name:?} under Row({n}): {err:?}"))),
                         Ok(r) => if let Err((kind, detail)) = check_read(&r, &g, Opt::Row(n)) { bad.push((format!("{kind}/{}", n_class(&g, n)), format!("sheet {name:?} under Row({n}): {detail}"))); }
                     }
+                    // a second read without touching the option: Row(n) stays in force
+                    if let Ok(r) = wb.worksheet_range(&name) { if let Err((kind, detail)) = check_read(&r, &g, Opt::Row(n)) { bad.push((format!("{kind}/{}/read-again-without-setting", n_class(&g, n)), format!("sheet {name:?} under Row({n}), second read: {detail}"))); } }
                 }
                 wb.with_header_row(HeaderRow::FirstNonEmptyRow);
                 match wb.worksheet_range(&name) { Ok(again) if crate::model::sheet::range_digest(&again) == crate::model::sheet::range_digest(&def) => {}, other => bad.push(("default-after-option-change".into(), format!("sheet {name:?}: the default read after Row(n) reads differs from the first default read ({:?})", other.map(|r| (r.start(), r.end()))))) }
@@ -187,12 +190,14 @@ fn corpus_header_rows(rep: &Report) {
 pub fn check(rep: &Report) {
     corpus_header_rows(rep);
     let t = crate::thorough(&rep.tier);
-    rep.rule("sheets = every subset of rows 0..4 non-empty (32 patterns) x column offset {0,2} x 4 formats (xlsx / xlsb also with a stale dimension record, xlsx with implicit references or with formatted value-less cells below the last value, ods with the first row in table:table-header-rows and the rest in table:table-rows); options = FirstNonEmptyRow and Row(n) for n in {0..6, 65535, 65536, 1048576, u32::MAX}; histories = every sequence of <= 3 option settings over all 12 options, plus every sequence of 4 over {First, Row(1), Row(3), Row(65536)} (thorough: all sequences of 4 over all options), a read after every step on one reader (xls: every option also handed over at construction through XlsOptions); plus, on every sheet of every fixture workbook of the repository that opens, Row(n) for n around its first and last used row against its own default read; non-trivial = history with a Row(n) option on a non-empty sheet; distinct by (format, sheet, history)");
+    rep.rule("sheets = every subset of rows 0..4 non-empty (32 patterns) x column offset {0,2} x 4 formats (xlsx / xlsb also with a stale dimension record, xlsx with implicit references or with formatted value-less cells below the last value, ods with the first row in table:table-header-rows and the rest in table:table-rows); options = FirstNonEmptyRow and Row(n) for n in {0..6, 65535, 65536, 1048576, u32::MAX}; histories = every sequence of <= 3 steps over all 12 options and the step 'read again without setting the option' (the option last set stays in force), plus every sequence of 4 over {First, Row(1), Row(3), Row(65536), read again} (thorough: all sequences of 4 over all steps), a read after every step on one reader (xls: every option also handed over at construction through XlsOptions); plus, on every sheet of every fixture workbook of the repository that opens, Row(n) for n around its first and last used row against its own default read; non-trivial = history with a Row(n) option on a non-empty sheet; distinct by (format, sheet, history)");
     rep.assume("columns of the range under Row(n) are not constrained (the statement fixes only the first row and the cell values)");
     let ns: Vec<u32> = vec![0, 1, 2, 3, 4, 5, 6, 65535, 65536, 1_048_576, u32::MAX];
     let mut opts: Vec<Opt> = vec![Opt::First];
     opts.extend(ns.iter().map(|n| Opt::Row(*n)));
-    let small = [Opt::First, Opt::Row(1), Opt::Row(3), Opt::Row(65536)];
+    let ctor_opts = opts.clone();
+    opts.push(Opt::Keep);
+    let small = [Opt::First, Opt::Row(1), Opt::Row(3), Opt::Row(65536), Opt::Keep];
     let mut hists: Vec<Vec<Opt>> = vec![];
     for a in &opts { hists.push(vec![*a]); }
     for a in &opts { for b in &opts { hists.push(vec![*a, *b]); } }
@@ -208,7 +213,7 @@ pub fn check(rep: &Report) {
         let bytes = build(fmt, &g, *variant);
         // the far pattern is read under options around the last row only (a range starting near row 0 would hold a million rows)
         let l = last_row(fmt);
-        let far_opts = [Opt::First, Opt::Row(l - 1), Opt::Row(l), Opt::Row(l + 1), Opt::Row(u32::MAX)];
+        let far_opts = [Opt::First, Opt::Row(l - 1), Opt::Row(l), Opt::Row(l + 1), Opt::Row(u32::MAX), Opt::Keep];
         let mut far_hists: Vec<Vec<Opt>> = far_opts.iter().map(|a| vec![*a]).collect();
         for a in far_opts { for b in far_opts { far_hists.push(vec![a, b]); } }
         let hists = if *p == 32 { &far_hists } else { &hists };
@@ -224,10 +229,15 @@ pub fn check(rep: &Report) {
                 Err(pn) => { let site = normalise_site(pn.rsplit(" @ ").next().unwrap_or("")); rep.fail(&format!("{fmt}/panic/{cls}/{site}"), &format!("panicked: {pn} (history {h:?})"), replay); hash_of(pn) }
                 Ok(Err(e)) => { rep.fail(&format!("{fmt}/error/{cls}"), &format!("{e} (history {h:?})"), replay); hash_of(e) }
                 Ok(Ok(ranges)) => {
-                    for (i, (r, o)) in ranges.iter().zip(h.iter()).enumerate() {
+                    // the option in force at a step: the last one set (a fresh reader has the default)
+                    let mut in_force = Opt::First;
+                    for (i, (r, step)) in ranges.iter().zip(h.iter()).enumerate() {
+                        let kept = matches!(step, Opt::Keep);
+                        if !kept { in_force = *step; }
+                        let o = &in_force;
                         if let Err((kind, detail)) = check_read(r, &g, *o) {
                             let c = match o { Opt::Row(n) => n_class(&g, *n), _ => "default" };
-                            rep.fail(&format!("{fmt}/{kind}/{c}{}{}", if i > 0 { "/after-option-change" } else { "" }, match *variant { 1 if *fmt == "ods" => "/rows-in-grouping-elements", 1 => "/stale-dimension", 2 => "/implicit-references", 3 => "/value-less-cells-below", _ => "" }), &format!("step {i} under {o:?}: {detail} (history {h:?})"), replay);
+                            rep.fail(&format!("{fmt}/{kind}/{c}{}{}", if kept { "/read-again-without-setting" } else if i > 0 { "/after-option-change" } else { "" }, match *variant { 1 if *fmt == "ods" => "/rows-in-grouping-elements", 1 => "/stale-dimension", 2 => "/implicit-references", 3 => "/value-less-cells-below", _ => "" }), &format!("step {i} under {o:?}: {detail} (history {h:?})"), replay);
                             break;
                         }
                     }
@@ -238,11 +248,11 @@ pub fn check(rep: &Report) {
         }
         // xls: the option handed over at construction (XlsOptions::header_row) instead of through with_header_row
         if *fmt == "xls" && *p != 32 {
-            for o in opts.iter() {
+            for o in ctor_opts.iter() {
                 rep.eval(1);
                 let res = guarded(|| -> Result<Range<Data>, String> {
                     let mut xo = calamine::XlsOptions::default();
-                    xo.header_row = match o { Opt::First => HeaderRow::FirstNonEmptyRow, Opt::Row(n) => HeaderRow::Row(*n) };
+                    xo.header_row = match o { Opt::First | Opt::Keep => HeaderRow::FirstNonEmptyRow, Opt::Row(n) => HeaderRow::Row(*n) };
                     let mut wb = Xls::new_with_options(Cursor::new(bytes.clone()), xo).map_err(|e| format!("open: {e:?}"))?;
                     wb.worksheet_range("S").map_err(|e| format!("worksheet_range: {e:?}"))
                 });
@@ -274,7 +284,7 @@ pub fn replay(path: &str) -> i32 {
     if let Some(f) = v.get("fixture").and_then(|f| f.as_str()) { println!("fixture tests/{f} of the repository: {}\n(re-run the check to observe it again; the file is not copied)", v["what"]); return 0; }
     let fmt = v["format"].as_str().unwrap().to_string();
     let g = model(&fmt, v["row_pattern"].as_u64().unwrap() as u32, v["col_offset"].as_u64().unwrap() as u32);
-    let h: Vec<Opt> = v["history"].as_array().unwrap().iter().map(|o| { let s = o.as_str().unwrap(); if s.starts_with("Row(") { Opt::Row(s[4..s.len() - 1].parse().unwrap()) } else { Opt::First } }).collect();
+    let h: Vec<Opt> = v["history"].as_array().unwrap().iter().map(|o| { let s = o.as_str().unwrap(); if s.starts_with("Row(") { Opt::Row(s[4..s.len() - 1].parse().unwrap()) } else if s == "Keep" { Opt::Keep } else { Opt::First } }).collect();
     let bytes = build(&fmt, &g, v["variant"].as_u64().unwrap_or(0) as u8);
     let run = || guarded(|| match fmt.as_str() { "xlsx" => run_history::<Xlsx<_>>(&bytes, &h), "xlsb" => run_history::<Xlsb<_>>(&bytes, &h), "xls" => run_history::<Xls<_>>(&bytes, &h), _ => run_history::<Ods<_>>(&bytes, &h) }.map(|v| v.iter().map(crate::model::sheet::range_digest).collect::<Vec<_>>()));
     let (a, b) = (run(), run());
